@@ -387,6 +387,12 @@ func c18Items(c *Ctx) []pgen.FItem {
 	add(pgen.FSig{P: []string{"NStr", "string"}, R: []string{"int", "string"}, Mode: "blank"})
 	add(pgen.FSig{P: []string{"float64", "float64"}, R: []string{"int"}, Mode: "named"})
 	add(pgen.FSig{P: []string{"float64"}, R: nil, Mode: "named"})
+	// signed zeros below a non-comparable argument (hashed, then compared with the derived Equal): real and imaginary
+	// parts of complex numbers, floats in lists (round 6: the complex hash lost its "+ 0" on the imaginary part)
+	add(pgen.FSig{P: []string{"[]complex128"}, R: []string{"int"}, Mode: "named"})
+	add(pgen.FSig{P: []string{"[]float64"}, R: []string{"string"}, Mode: "named"})
+	add(pgen.FSig{P: []string{"complex128"}, R: []string{"bool"}, Mode: "named"})
+	add(pgen.FSig{P: []string{"[]complex64", "int"}, R: []string{"int", "int"}, Mode: "named"})
 	// functions with a trailing error result that fail for some arguments
 	add(pgen.FSig{P: []string{"int"}, R: []string{"string", "error"}, Mode: "named"})
 	add(pgen.FSig{P: []string{"string"}, R: []string{"error"}, Mode: "named"})
